@@ -8,17 +8,20 @@ if [ -n "$(git -C /repo status --porcelain)" ]; then echo "refusing: /repo has l
 export VERIF_EVIDENCE_DIR=$(mktemp -d /tmp/neutral-evidence.XXXXXX)
 props=$(python3 -c "import json;print(' '.join(c['property_id'] for c in json.load(open('MANIFEST.json'))['checks']))")
 rc=0
+./check C11 quick >/dev/null 2>&1   # builds the checker once, before the parallel runs
 files=("$@"); [ ${#files[@]} -eq 0 ] && files=(neutral/*.diff)
 for f in "${files[@]}"; do
   if ! git -C /repo apply "$PWD/$f" 2>/dev/null; then echo "$f: PATCH DOES NOT APPLY"; rc=1; continue; fi
+  out=$VERIF_EVIDENCE_DIR/out; rm -rf $out; mkdir -p $out
+  echo $props | tr ' ' '\n' | xargs -P 10 -I{} sh -c "./check {} quick >$out/{}.txt 2>&1; echo \$? >$out/{}.rc"
   alarms=""
   for p in $props; do
-    ./check "$p" quick >/tmp/neutralcheck.$$ 2>&1; e=$?
-    if [ $e -ne 0 ]; then alarms="$alarms $p(exit=$e)"; grep "^  R\|UNDECIDED" /tmp/neutralcheck.$$ | cut -c1-300 | sed "s|^|    [$p] |" ; fi
+    e=$(cat $out/$p.rc)
+    if [ "$e" != 0 ]; then alarms="$alarms $p(exit=$e)"; grep "^  R\|UNDECIDED" $out/$p.txt | cut -c1-400 | sed "s|^|    [$p] |" ; fi
   done
   git -C /repo checkout -- .
   if [ -n "$alarms" ]; then echo "$f: ALARMS:$alarms"; rc=1; else echo "$f: silent"; fi
 done
-rm -f /tmp/neutralcheck.$$; rm -rf "$VERIF_EVIDENCE_DIR"
+rm -rf "$VERIF_EVIDENCE_DIR"
 [ -z "$(git -C /repo status --porcelain)" ] || { echo "/repo left dirty"; rc=1; }
 exit $rc
